@@ -3,8 +3,42 @@ real miasmX assembler and print, per line, the candidate list (hex) or the excep
 import sys, json
 
 
+def ppc_outcome(P, w):
+    """(class name, bin(), str(), asm(str())) of one PowerPC word, exceptions as strings - the same function is run by the normal
+    interpreter (C18) and by the child started with -O."""
+    import io, contextlib, struct
+    try:
+        m = P.ppc_mn(w)
+    except Exception as e:
+        return ['decode-raises:' + type(e).__name__]
+    if m is None:
+        return [None]
+    out = [m.__class__.__name__]
+    try:
+        out.append(m.bin())
+    except Exception as e:
+        out.append('bin-raises:' + type(e).__name__)
+    try:
+        txt = str(m)
+        out.append(txt)
+    except Exception as e:
+        out.append('str-raises:' + type(e).__name__)
+        return out
+    try:
+        with contextlib.redirect_stdout(io.StringIO()):
+            r = P.ppc_mn.asm(txt)
+        out.append([struct.unpack('>L', x)[0] for x in r])
+    except Exception as e:
+        out.append('asm-raises:' + type(e).__name__)
+    return out
+
+
 def main():
     req = json.load(sys.stdin)
+    if req.get('ppc_words') is not None:
+        from miasmx.arch import ppc_arch as P
+        json.dump({'optimize': sys.flags.optimize, 'results': [ppc_outcome(P, w) for w in req['ppc_words']]}, sys.stdout)
+        return
     from miasmx.arch.ia32_arch import x86mnemo
     f = x86mnemo.asm if req['syntax'] == 'intel' else x86mnemo.asm_att
     out = []
